@@ -325,7 +325,7 @@ func vRunScenarioNative(t *testing.T, l *vlog, sc *vScenario) {
 			sc.msgs[i].gapUs = 20000
 		}
 	}
-	run := &vRun{t: t, l: l, sc: sc, readers: sc.readers, heldCh: make(chan struct{}), native: true}
+	run := &vRun{t: t, l: l, sc: sc, readers: sc.readers, heldCh: make(chan struct{}), idleGo: make(chan struct{}), native: true}
 	globalMathRandomGenerator = &vRandGen{r: &vrand{s: uint64(sc.seed) + 99}, tsns: nil}
 	run.link = newVLink(nil)
 	run.link.native = true
